@@ -3,7 +3,7 @@
    [fire_time now d] = max now (floor((now+d)/1000)*1000 rounded down to the generated 200 ms bucket). *)
 From Coq Require Import NArith List Bool.
 From AV Require Import Gen.WsConnConsts Model.WsConn Proofs.WsConnProofs Proofs.WsConnProofs2 Proofs.WsConnProofs3
-  Proofs.WsConnTimers.
+  Proofs.WsConnTimers Proofs.WsConnLive.
 Import ListNotations.
 Open Scope N_scope.
 
@@ -58,6 +58,33 @@ Theorem C17_one_second_to_spare_open : forall c t, 1000 <= openHandshakeTimeout 
 Proof. exact tick_spare_before_fire. Qed.
 Print Assumptions C17_one_second_to_spare_open.
 
+(* ---- the clock ----
+   Tick t leaves nothing behind that was scheduled for a time <= t *)
+Theorem C17_tick_complete : forall c t s x, In x (timers (fst (step c s (ETick t)))) -> t < te_time x.
+Proof. exact tick_complete. Qed.
+Print Assumptions C17_tick_complete.
+
+(* ---- closing handshake and server TCP drop: the silent peer ----
+   In every reachable CLOSING state a close-handshake call or (client) a server-drop call is pending and no call is
+   overdue; therefore a peer that neither answers our close frame nor (as a server) drops TCP is dropped no later
+   than closeHandshakeTimeout (+ serverConnectionDropTimeout) after closing began (= C05_bounded) *)
+Theorem C17_silent_close_drop : forall c, 0 < closeHandshakeTimeout c ->
+  (is_server c = false -> 0 < serverConnectionDropTimeout c) ->
+  forall evs evs2 tc, st (fst (run c evs)) = CLOSING -> closingSince (fst (run c evs)) = Some tc ->
+  tc + closeHandshakeTimeout c + (if is_server c then 0 else serverConnectionDropTimeout c) < now (fst (run c (evs ++ evs2))) ->
+  st (fst (run c (evs ++ evs2))) = CLOSED.
+Proof. exact closing_bounded_later. Qed.
+Print Assumptions C17_silent_close_drop.
+
+(* ... and the responsive one: whatever ended the connection (the server's reply handling drops at once; the TCP drop
+   arrives: connectionLost), once CLOSED no timeout flag changes any more: a close-handshake / server-drop timeout that
+   has not been reported by then never will be *)
+Theorem C17_responsive_flags_frozen : forall c evs evs2, st (fst (run c evs)) = CLOSED ->
+  let s := fst (run c evs) in let s2 := fst (run c (evs ++ evs2)) in
+  st s2 = CLOSED /\ wasOpenTO s2 = wasOpenTO s /\ wasCloseTO s2 = wasCloseTO s /\ wasDropTO s2 = wasDropTO s.
+Proof. exact flags_frozen. Qed.
+Print Assumptions C17_responsive_flags_frozen.
+
 (* ---- after CLOSED ----
    "no timer has any effect after the connection is closed": advancing the clock produces no output whatsoever,
    the state stays CLOSED and nothing that onClose will report changes (since the repair 86f33b05 this includes the
@@ -101,4 +128,26 @@ Example C17_witness_ping_timeout :
   snd (run c [EHandshake; ETick 1000; EPeerPong false; ETick 3000; EOwnDrop]) =
   [(375, WHttp); (375, CbOpen); (375, IsOpen); (1000, WPing (Some 1)); (1000, CbPong); (3000, IsClosed); (3000, Abort);
    (3000, CbClose false (Some 1006) None RPingTO)].
+Proof. vm_compute. reflexivity. Qed.
+
+(* concrete timelines for the remaining timers (the general statements above cover the drop itself; reason class and
+   flags per timer are exercised by the correspondence run on every grid placement) *)
+Example C17_witness_close_timeout_and_reply :
+  let c := mkCfg Server true false 2000 2000 0 0 0 12 true 375 in
+  (* silent: close sent at 625, timer fires at floor(2.625) = 2 s <= 2625 *)
+  snd (run c [EHandshake; ETick 625; ESendClose (Some 1000) None; ETick 1999; ETick 2000; EOwnDrop]) =
+  [(375, WHttp); (375, CbOpen); (375, IsOpen); (625, WClose OApi (Some 1000) None); (2000, IsClosed); (2000, Abort);
+   (2000, CbClose false (Some 1006) None RCloseTO)]
+  /\
+  (* responsive: the reply arrives at 1625 = deadline - 1 s *)
+  snd (run c [EHandshake; ETick 625; ESendClose (Some 1000) None; ETick 1625; EPeerClose (Some (1000, None)) []; ETick 9000; EOwnDrop]) =
+  [(375, WHttp); (375, CbOpen); (375, IsOpen); (625, WClose OApi (Some 1000) None); (1625, IsClosed); (1625, Abort);
+   (9000, CbClose true (Some 1000) None RNone)].
+Proof. vm_compute. auto. Qed.
+
+Example C17_witness_server_drop_timeout :
+  let c := mkCfg Client true false 2000 2000 1000 0 0 12 true 0 in
+  snd (run c [EHandshake; ESendClose (Some 1000) None; ETick 375; EPeerClose (Some (1000, None)) []; ETick 1374; ETick 1375; EOwnDrop]) =
+  [(0, WHttp); (0, CbOpen); (0, IsOpen); (0, WClose OApi (Some 1000) None); (1375, IsClosed); (1375, Abort);
+   (1375, CbClose false (Some 1006) None RDropTO)].
 Proof. vm_compute. reflexivity. Qed.
